@@ -112,6 +112,38 @@ const MARKERS: &[MarkerKind] = &[
         samples: &["a-b", "x"],
         misses: &["", "A1"],
     },
+    // parentheses inside a character class are not groups
+    MarkerKind {
+        regex: "[^)]+",
+        samples: &["a", "x(y"],
+        misses: &["", "a)b"],
+    },
+    MarkerKind {
+        regex: "[(a-z]+",
+        samples: &["a(", "abc"],
+        misses: &["", "A"],
+    },
+    // a ']' right after the opening of a class, an escaped ']', a nested class
+    MarkerKind {
+        regex: "[])a]+",
+        samples: &["a)", "]a"],
+        misses: &["", "b"],
+    },
+    MarkerKind {
+        regex: "[^])]+",
+        samples: &["a(", "xyz"],
+        misses: &["", "a]"],
+    },
+    MarkerKind {
+        regex: "[a\\])]+",
+        samples: &["a]", ")a"],
+        misses: &["", "b"],
+    },
+    MarkerKind {
+        regex: "[[:alpha:])]+",
+        samples: &["ab)", "x"],
+        misses: &["", "1"],
+    },
 ];
 
 /// Legal expressions whose compiled program is large (1-4 MB, 8-25 ms to build): bounded repetitions of unicode
